@@ -234,6 +234,26 @@ func Drive(ctx context.Context, s *hx.Session, sc Scenario, sched []int, header 
 				o.Foreign = true
 			}
 		}
+		if was == "new" && !w.Spec.Abort {
+			// every operation that reported success must be tracked under its own key (an inner-node removal is
+			// tracked under the successor's identity; if the writer then updates that successor the removal is not
+			// tracked at all)
+			tr := w.Tracked()
+			for j, op := range w.Spec.Ops {
+				if j >= len(w.OpRes) || w.OpRes[j] != "true" {
+					continue
+				}
+				found := false
+				for _, t := range tr {
+					if strings.HasPrefix(t, fmt.Sprintf("%d:", op.Key)) {
+						found = true
+					}
+				}
+				if !found {
+					o.Foreign = true
+				}
+			}
+		}
 		if w.State == "done" {
 			return dump(i)
 		}
